@@ -196,6 +196,7 @@ class Interp:
         # indeterminates known to be strictly increasing in this configuration (a finite set of
         # orderings is enumerated by the caller): decides min / max / comparisons among them
         self.chain = []
+        self._yields = []
         self.depth = 0
         self.trace = []
 
@@ -236,13 +237,21 @@ class Interp:
         self.depth += 1
         if self.depth > 12:
             raise Undecided("call depth")
+        gen = _is_generator(node)
+        if gen:
+            # a generator is evaluated eagerly: the list of the values it yields (the code in this
+            # fragment has no effects whose interleaving with the consumer could matter)
+            self._yields.append([])
         try:
             self.block(strip_docstring(node.body), env)
         except _Return as r:
-            return r.value
+            if not gen:
+                return r.value
         finally:
             self.depth -= 1
-        return None
+            if gen:
+                produced = self._yields.pop()
+        return produced if gen else None
 
     # -- statements
     def block(self, stmts, env):
@@ -364,7 +373,7 @@ class Interp:
         v = self.ev(sl, env)
         if isinstance(v, np.ndarray) and v.dtype == bool:
             return v
-        if isinstance(v, str):
+        if isinstance(v, (str, slice)):
             return v
         return self._int(v)
 
@@ -431,7 +440,7 @@ class Interp:
             if e.id in self.module_funcs:
                 return ("modfunc", e.id)
             if e.id in ("float", "int", "len", "range", "enumerate", "list", "tuple", "min", "max", "isinstance",
-                        "callable", "zip", "Number", "Real", "Integral", "bool", "abs", "reversed", "sum", "dict", "type"):
+                        "callable", "zip", "Number", "Real", "Integral", "bool", "abs", "reversed", "sum", "dict", "type", "slice"):
                 return ("builtin", e.id)
             raise Undecided(f"name `{e.id}`")
         if isinstance(e, ast.UnaryOp):
@@ -492,6 +501,16 @@ class Interp:
             return self.call(e, env)
         if isinstance(e, ast.JoinedStr):
             return "<str>"
+        if isinstance(e, ast.Yield):
+            if not self._yields:
+                raise Undecided("yield outside a generator")
+            self._yields[-1].append(self.ev(e.value, env) if e.value is not None else None)
+            return None
+        if isinstance(e, ast.YieldFrom):
+            if not self._yields:
+                raise Undecided("yield outside a generator")
+            self._yields[-1].extend(list(self.ev(e.value, env)))
+            return None
         if isinstance(e, ast.Lambda):
             fd = ast.FunctionDef(name="<lambda>", args=e.args, body=[ast.Return(value=e.body)], decorator_list=[])
             return Closure(fd, env, self, self.module_funcs)
@@ -674,6 +693,8 @@ class Interp:
             return isinstance(args[0], (Fn, Closure))
         if name == "dict":
             return dict(args[0]) if args else dict(kw)
+        if name == "slice":
+            return slice(*[None if a is None else self._int(a) for a in args])
         if name == "type":
             return ("type", type(args[0]).__name__)
         if name == "isinstance":
@@ -782,6 +803,18 @@ class Interp:
         if name in ("isinf", "isnan"):
             raise Undecided(f"np.{name} of symbolic data")
         raise Undecided(f"np.{name}")
+
+
+def _is_generator(node):
+    stack = list(node.body)
+    while stack:
+        n = stack.pop()
+        if isinstance(n, (ast.Yield, ast.YieldFrom)):
+            return True
+        if isinstance(n, (ast.FunctionDef, ast.Lambda, ast.ClassDef)):
+            continue
+        stack.extend(ast.iter_child_nodes(n))
+    return False
 
 
 def _load(t):
